@@ -29,7 +29,7 @@ CLAIMS = {
         note="trusted: mc/oracles.py gfp_prune, iterative_lfp, scc_partition, all_assignments (self-tested); stub searcher for (ii)"),
     "C06": dict(category="model_checking", design="4/C06",
         technique="explicit-state breadth-first search over histories of the real EquivalenceDB, deduplicated on complete internal state x reference model; oracle: plain reachability (SCC)",
-        text="All histories of two-way edge / one-way edge / mark-verified / connect-cycles over 4 labels to depth 5 (thorough: depth 7, and 5 labels to depth 5); in every state with no edge added since the last cycle detection equivalent/is_verified/find_path/__getitem__ are compared with mutual reachability for all ordered pairs.",
+        text="All histories of two-way edge / one-way edge / mark-verified / connect-cycles over 4 labels to depth 6 and 3 labels to depth 8 (thorough: 4 labels depth 7, 5 labels depth 6, 3 labels depth 10); in every state with no edge added since the last cycle detection equivalent/is_verified/find_path/__getitem__ are compared with mutual reachability for all ordered pairs.",
         note="trusted: scc_partition; states are copied attribute by attribute (attribute set asserted)"),
     "C07": dict(category="exploration", design="4/C07",
         technique="bounded-exhaustive enumeration of specifications x sizes x parameters and of rule forms x objects; oracle: plain enumeration of words / parse trees",
@@ -69,7 +69,7 @@ CLAIMS = {
         note="set_empty is given the true emptiness (as the searcher does)"),
     "C16": dict(category="model_checking", design="4/C16",
         technique="explicit-state breadth-first search over histories of the real DefaultQueue with an obligation monitor (product state), do_level interleaved as a generator",
-        text="All histories of add/stop/verified/not-inferrable/next/do_level-start/do_level-next over 2-3 labels for 7 (36) packs to depth 8 (10): never work for a stopped label, never the same (label, strategy) twice, complete ordered schedule for every live label at exhaustion, exhaustion is stable, do_level semantics.",
+        text="All histories of add/stop/verified/not-inferrable/next/do_level-start/do_level-next over 2-3 labels for 7 (36) packs to depth 9 (11), 3 labels to depth 7 (9): never work for a stopped label, never the same (label, strategy) twice, complete ordered schedule for every live label at exhaustion, exhaustion is stable, do_level semantics.",
         note="trusted: Monitor (self-tested)"),
     "C17": dict(category="fault_enumeration", design="4/C17",
         technique="crash-point enumeration: interruption of the real auto_search by the virtual clock at every work-packet count, pickle round trip, differential continuation",
